@@ -45,6 +45,14 @@ def gen(ctx):
             for theta in [rnd.uniform(-7, 7), rnd.choice(range(-12, 13)) * math.pi / 6, rnd.uniform(-1e-6, 1e-6)]:
                 v = tuple(rnd.choice([rnd.uniform(-10, 10), 0.0, 1.0]) for _ in range(3))
                 out.append((theta, a, v, "family%s" % (signs,)))
+    # zero components written as -0.0 (a cross product of vectors in a coordinate plane gives them): `x != 0` is False for them too
+    for signs in itertools.product((-1, 0, 1), repeat=3):
+        if signs == (0, 0, 0) or 0 not in signs:
+            continue
+        for rep in range(2 if ctx.quick() else 20):
+            a = tuple((-0.0 if s == 0 else s * rnd.uniform(1e-3, 10)) for s in signs)
+            v = tuple(rnd.uniform(-10, 10) for _ in range(3))
+            out.append((rnd.uniform(-7, 7), a, v, "family%s" % (signs,)))
     # every non-zero axis, whatever its length: components far below and far above 1 (nothing in the function may compare a
     # component with an absolute threshold), and axes whose components differ by many orders of magnitude
     for scale in (1e-9, 1e-7, 1e-5, 1e5, 1e9):
